@@ -174,6 +174,38 @@ def run(ctx):
         r = pl.parse_enc_output(e) if e and e.startswith("ok") else None
         if r:
             inputs.append(("hostile-patches", bytes.fromhex(r[0])))
+    # spline dictionaries with hostile coefficients / control points / quant_adjust (and noise LUTs)
+    BIGS = [0, 1, -1, 255, 4095, -4096, 65535, -65536, 2 ** 20, -2 ** 20, 2 ** 24, 2 ** 30, -2 ** 30, 2 ** 31 - 1, -2 ** 31 + 1]
+    hs = []
+    for _ in range(40 if q else 600):
+        w, h = rng.randint(8, 40), rng.randint(8, 30)
+        wild = rng.random() < 0.4             # wild: mostly rejected by the area limit; tame: reaches the renderer
+        img = {"w": w, "h": h, "bits": 8, "gray": rng.random() < 0.15, "buf16": True, "orient": 1, "anim": None, "ecs": []}
+        nch = 1 if img["gray"] else 3
+        f = {"gshift": 1, "is_last": True, "tr": [], "pals": [], "tree": ("L", 0, 5, 0, 1), "wp": None,
+             "chans": [(w, h, pl.gen_pixels(rng, w, h, 0, 255)) for _ in range(nch)]}
+        sp = []
+        for i in range(rng.randint(1, 3)):
+            if wild:
+                coeffs = [rng.choice(BIGS) if rng.random() < 0.3 else rng.randint(-50, 50) for _ in range(128)]
+            else:
+                coeffs = [0] * 128
+                for c in range(3):
+                    coeffs[32 * c] = rng.choice([0, 1, -1, 3, 40, -40, 2000])
+                coeffs[96] = rng.choice([0, 1, -1, 2, 5, 300, -300])
+            lim = BIGS if wild else BIGS[:11]
+            deltas = [(rng.choice(lim) if rng.random() < 0.5 else rng.randint(-9, 9) or 1,
+                       rng.choice(lim) if rng.random() < 0.5 else rng.randint(-9, 9)) for _ in range(rng.randint(0, 5))]
+            start = (abs(rng.choice(lim)), abs(rng.choice(lim))) if i == 0 else (rng.choice(lim), rng.choice(lim))
+            sp.append({"start": start, "deltas": deltas, "coeffs": coeffs})
+        f["splines"] = (rng.choice([0, -7, -8, -9, -100, 7, 100, 2 ** 31 - 1, -2 ** 31 + 1] if wild else [0, -7, -8, -9, 7, 100]), sp)
+        if rng.random() < 0.4:
+            f["noise"] = [rng.choice([0, 1023, rng.randrange(1024)]) for _ in range(8)]
+        hs.append(pl.plan_line(img, [f]))
+    for e in (run_lines_robust([MODEL_EXE, "enc"], hs, per_line_timeout=60) if ok else []):
+        r = pl.parse_enc_output(e) if e and e.startswith("ok") else None
+        if r:
+            inputs.append(("hostile-splines", bytes.fromhex(r[0])))
     import feedlib as fl
     for _label, data, _jpeg in fl.synth_vardct(ctx, 6 if q else 60):
         inputs.append(("valid-vardct", data))       # VarDCT frame + jbrd box: bases for mutation too
@@ -207,7 +239,7 @@ def run(ctx):
             meta.append(("corpus-case", data, c["script"]))
     for label, data in inputs:
         script = gen_script(rng, len(data))
-        if label == "hostile-patches":
+        if label in ("hostile-patches", "hostile-splines"):
             script = rng.choice(["W,RA,RA", "W,R0,M,RA", "F0,RA,P0:0:3:3,RA"])
         lines.append(f"run {hex_or_dash(data)} {script} {ALLOC_LIMIT}")
         meta.append((label, data, script))
